@@ -148,7 +148,7 @@ Definition walk (s : subst) (t : term) : term :=
   | _ => t
   end.
 
-Inductive areason := ANoFuel | ACyclic | AUnifyFuel | AUnsupported.
+Inductive areason := ANoFuel | ACyclic | AUnifyFuel | AUnsupported | AAmbiguous.
 Inductive ures := UOk (s : subst) | UFail | UAbort (r : areason).
 
 Fixpoint zip_terms (a b : list term) : list (term * term) :=
@@ -428,39 +428,47 @@ Definition classify (t : term) : gk :=
 (* ------------------------------------------------------------------ deterministic builtins *)
 Inductive dres := DSucc (s : bst) | DFail | DExc (b : term) | DStuck (r : areason).
 
-Inductive eres := EVal (z : Z) | EErr (formal : term) | EStuck.
+Inductive eres := EVal (z : Z) | EErr (formal : term) | EAmb | EStuck.
 
-Fixpoint eval (t : term) : eres :=      (* t: substitution already applied *)
+(* Evaluation collects every error source of the expression (None = a non-evaluable compound, e.g. a list).
+   ISO does not fix the order in which the errors of one expression are detected (and the implementation's compiled and
+   interpreted evaluators differ): an expression with exactly one error source raises that error; with several, or with a
+   non-evaluable compound whose arguments may be inspected first, the error is reported as ambiguous (EAmb). *)
+Fixpoint eval_all (t : term) : option Z * list (option term) :=
   match t with
-  | Var _ => EErr inst_error
-  | Int z => EVal z
-  | Atom f => EErr (type_error n_evaluable (pred_ind f 0))
+  | Var _ => (None, [Some inst_error])
+  | Int z => (Some z, [])
+  | Atom f => (None, [Some (type_error n_evaluable (pred_ind f 0))])
   | Cmp f [a] =>
-      if name_eqb f n_minus then match eval a with EVal x => EVal (- x) | e => e end
-      else if name_eqb f n_plus then eval a
-      else match eval a with EVal _ => EErr (type_error n_evaluable (pred_ind f 1)) | e => e end
+      if name_eqb f n_minus then let (v, e) := eval_all a in (option_map Z.opp v, e)
+      else if name_eqb f n_plus then eval_all a
+      else (None, [None])
   | Cmp f [a; b] =>
-      let bin (op : Z -> Z -> eres) :=
-        match eval a with
-        | EVal x => match eval b with EVal y => op x y | e => e end
-        | e => e
-        end in
-      if name_eqb f n_plus then bin (fun x y => EVal (x + y))
-      else if name_eqb f n_minus then bin (fun x y => EVal (x - y))
-      else if name_eqb f n_times then bin (fun x y => EVal (x * y))
+      let (va, ea) := eval_all a in
+      let (vb, eb) := eval_all b in
+      let bin (op : Z -> Z -> Z) := (match va, vb with Some x, Some y => Some (op x y) | _, _ => None end, ea ++ eb) in
+      if name_eqb f n_plus then bin Z.add
+      else if name_eqb f n_minus then bin Z.sub
+      else if name_eqb f n_times then bin Z.mul
       else if name_eqb f n_idiv then
-        bin (fun x y => if Z.eqb y 0 then EErr (Cmp n_evaluation_error [Atom n_zero_divisor]) else EVal (Z.quot x y))
-      else bin (fun _ _ => EErr (type_error n_evaluable (pred_ind f 2)))
-  | Cmp f args =>
-      (* not an evaluable functor: the arguments are evaluated first (their errors win), as the implementation does;
-         ISO does not fix the order in which the errors of an expression are detected *)
-      (fix go (l : list term) : eres :=
-         match l with
-         | [] => EErr (type_error n_evaluable (pred_ind f (List.length args)))
-         | x :: r => match eval x with EVal _ => go r | e => e end
-         end) args
-  | _ => EStuck
-  end%Z.
+        match va, vb with
+        | Some x, Some y => if Z.eqb y 0 then (None, ea ++ eb ++ [Some (Cmp n_evaluation_error [Atom n_zero_divisor])])
+                            else (Some (Z.quot x y), ea ++ eb)
+        | _, Some y => if Z.eqb y 0 then (None, ea ++ eb ++ [None]) else (None, ea ++ eb)
+        | _, _ => (None, ea ++ eb)
+        end
+      else (None, [None])
+  | Cmp _ _ => (None, [None])
+  | _ => (None, [None; None])
+  end.
+
+Definition eval (t : term) : eres :=      (* t: substitution already applied *)
+  match eval_all t with
+  | (Some z, []) => EVal z
+  | (_, [Some f]) => EErr f
+  | (None, []) => EStuck
+  | _ => EAmb
+  end.
 
 Definition cmp_holds (op : cmpop) (x y : Z) : bool :=
   match op with
@@ -500,17 +508,19 @@ Definition run_det (d : detk) (s : bst) : dres :=
   | DIs a b => match eval (apply (sub s) b) with
                | EVal z => unify_st s a (Int z)
                | EErr f => DExc (mkerr f)
+               | EAmb => DStuck AAmbiguous
                | EStuck => DStuck AUnsupported
                end
-  | DCmp op a b => match eval (apply (sub s) a) with
-                   | EVal x => match eval (apply (sub s) b) with
-                               | EVal y => if cmp_holds op x y then DSucc s else DFail
-                               | EErr f => DExc (mkerr f)
-                               | EStuck => DStuck AUnsupported
-                               end
-                   | EErr f => DExc (mkerr f)
-                   | EStuck => DStuck AUnsupported
-                   end
+  | DCmp op a b =>
+      (* both sides belong to one goal: their error sources are pooled *)
+      match eval_all (apply (sub s) a), eval_all (apply (sub s) b) with
+      | (Some x, []), (Some y, []) => if cmp_holds op x y then DSucc s else DFail
+      | (_, ea), (_, eb) => match ea ++ eb with
+                            | [Some f] => DExc (mkerr f)
+                            | [] => DStuck AUnsupported
+                            | _ => DStuck AAmbiguous
+                            end
+      end
   end.
 
 (* ------------------------------------------------------------------ programs *)
@@ -842,7 +852,8 @@ Fixpoint exec (n : nat) (prog : program) (g : term) (cb : N) (s : bst) (k : kont
 Inductive result :=
 | NoFuel
 | Stuck (r : areason)
-| Done (answers : list term) (ball : option term) (log : list term).
+| Done (answers : list term) (ball : option term) (log : list term)
+| Prefix (answers : list term) (log : list term).   (* the run stopped at an arithmetic error whose kind is ambiguous *)
 
 Definition top_k (tmpl : term) : kont := fun s' => ([EAns (apply (sub s') tmpl)], SNorm).
 
@@ -858,6 +869,7 @@ Fixpoint log_of (ev : list event) : list term :=
 Definition result_of (o : outcome) : result :=
   match snd o with
   | SAbort ANoFuel => NoFuel
+  | SAbort AAmbiguous => Prefix (answers_of (fst o)) (log_of (fst o))
   | SAbort r => Stuck r
   | SExc b _ => Done (answers_of (fst o)) (Some b) (log_of (fst o))
   | _ => Done (answers_of (fst o)) None (log_of (fst o))
@@ -886,13 +898,22 @@ Definition oball_eqb (a b : option term) : bool :=
   | _, _ => false
   end.
 
+Fixpoint is_prefix (a b : list term) : bool :=
+  match a, b with
+  | [], _ => true
+  | x :: a', y :: b' => term_eqb x y && is_prefix a' b'
+  | _, _ => false
+  end.
+
 (* 0 = the observed run equals the model's; 1 = it differs; 2 = model out of fuel; 3 = model stuck (cyclic/unsupported);
-   4 = more than `cap` answers (case dropped).  The observed terms must be variant-normalised (terms.number_vars). *)
+   4 = more than `cap` answers (case dropped); 5 = the model stopped at an ambiguous arithmetic error and the observed
+   answers and log start with the model's.  The observed terms must be variant-normalised (terms.number_vars). *)
 Definition check_run (n : nat) (prog : program) (q tmpl : term) (cap : nat)
            (answers : list term) (ball : option term) (log : list term) : N :=
   match solve n prog q tmpl with
   | NoFuel => 2
   | Stuck _ => 3
+  | Prefix a l => if is_prefix (map normt a) answers && is_prefix (map normt l) log then 5 else 1
   | Done a b l =>
       if Nat.ltb cap (List.length a) then 4
       else if terms_eqb (map normt a) answers && oball_eqb (option_map normt b) ball && terms_eqb (map normt l) log
